@@ -348,10 +348,15 @@ def _containers(ctx: Ctx) -> None:
     nops = sum(1 for nd in json.loads(doc)["nodes"] if nd.get("op") == "Extension")
     if nops != len(places):
         raise MachineryError(f"container HUGR has {nops} opaque ops, expected {len(places)}")
-    for with_op in (False, True):
+    for with_op, holes in ((False, False), (True, False), (True, True)):
         ctx.evaluations += 1
-        ctx.nontriv(f"containers:{with_op}")
+        ctx.nontriv(f"containers:{with_op}:{holes}")
         h0 = Hugr.load_json(doc)
+        if holes:            # an edit history: leaf nodes deleted after loading, their indices stay free
+            for _ in range(5):
+                first = next(n for n in h0 if isinstance(h0[n].op, ops.Custom) and not h0.children(n))
+                h0.delete_node(first)
+            places = places[5:]
         reg = registry_for([], [("e1", "opn", "d")] if with_op else [])
         try:
             h0.resolve_extensions(reg)
